@@ -40,7 +40,7 @@ Definition hist_obs {C} (P : policy C) (c0 : C) (modelled : bool) (p : pipeline)
 Definition run (c : case) : sx :=
   match c with
   | CHist p ct lmax h =>
-      if negb (forallb wf_pipelineb (hist_pipelines p h)) then bad_case
+      if negb (forallb (fun q => wf_pipelineb q && roots_okb q) (hist_pipelines p h)) then bad_case
       else match ct with
            | 0 => hist_obs simple_policy [] true p h
            | 1 => hist_obs lru_policy (lru_empty lmax) true p h
@@ -115,6 +115,7 @@ Definition hist_ok (p : pipeline) (ct : nat) (h : list step) (obs : sx) : bool :
 
 Definition spec_ok (c : case) (obs : sx) : bool :=
   match c with
-  | CHist p ct _ h => if forallb wf_pipelineb (hist_pipelines p h) then hist_ok p ct h obs else true
+  | CHist p ct _ h =>
+      if forallb (fun q => wf_pipelineb q && roots_okb q) (hist_pipelines p h) then hist_ok p ct h obs else true
   | CMap m => Run_C09Map.spec_ok m obs
   end.
